@@ -1336,6 +1336,11 @@ def in1d(a, b, **kw):
 def intersect1d(a, b, assume_unique=False):
     a, b = asarray(a), asarray(b)
     dt = _np.result_type(a.dtype, b.dtype)
+    if assume_unique:
+        # NumPy's algorithm when uniqueness is promised (wrong on duplicates, exactly as NumPy is)
+        aux = sort(concatenate([a.ravel(), b.ravel()]))
+        r = aux[:-1][aux[1:] == aux[:-1]]
+        return r if r.dtype == dt else r.astype(dt)
     ua = unique(a)
     r = ua[isin(ua, b)]
     return r if r.dtype == dt else r.astype(dt)
